@@ -35,6 +35,12 @@ pub struct RevPlan {
     pub trailing_ws: bool,
     pub two_objstms: bool,
     pub move_root: bool,
+    /// with move_root: the revision also frees the catalog it replaces (object numbers 1.. are then
+    /// mentioned by an update, e.g. a classic subsection "1 1" whose entry is free)
+    pub free_old_root: bool,
+    /// the cross-reference stream of this revision takes the object number of the previous
+    /// revision's cross-reference stream (an update may rewrite any object, also that one)
+    pub reuse_xref_num: bool,
 }
 
 #[derive(Clone, Debug, PartialEq)]
@@ -80,7 +86,8 @@ impl History {
                     })
                     .collect();
                 json!({"mentions": m, "xref_stream": r.xref_stream, "w_extra": r.w_extra, "w0_zero": r.w0_zero, "cuts": r.cuts, "xref_filter": filt_name(r.xref_filter),
-                    "objstm_filter": filt_name(r.objstm_filter), "trailing_ws": r.trailing_ws, "two_objstms": r.two_objstms, "move_root": r.move_root})
+                    "objstm_filter": filt_name(r.objstm_filter), "trailing_ws": r.trailing_ws, "two_objstms": r.two_objstms, "move_root": r.move_root,
+                    "free_old_root": r.free_old_root, "reuse_xref_num": r.reuse_xref_num})
             })
             .collect();
         json!({"junk": hex(&self.junk), "nvals": self.nvals, "revs": revs, "relaxed_reuse": self.relaxed_reuse})
@@ -114,6 +121,8 @@ impl History {
                 trailing_ws: r.get("trailing_ws")?.as_bool()?,
                 two_objstms: r.get("two_objstms")?.as_bool()?,
                 move_root: r.get("move_root")?.as_bool()?,
+                free_old_root: r.get("free_old_root").and_then(|x| x.as_bool()).unwrap_or(false),
+                reuse_xref_num: r.get("reuse_xref_num").and_then(|x| x.as_bool()).unwrap_or(false),
             });
         }
         Some(History { junk: unhex(j.get("junk")?.as_str()?)?, nvals: j.get("nvals")?.as_u64()? as u32, revs, relaxed_reuse: j.get("relaxed_reuse").and_then(|x| x.as_bool()).unwrap_or(false) })
@@ -137,6 +146,7 @@ pub fn compile(h: &History) -> DocSpec {
     let mut status: BTreeMap<u32, St> = BTreeMap::new();
     let mut gen: BTreeMap<u32, u16> = BTreeMap::new();
     let mut root: u32 = 1;
+    let mut last_xref_stream_num: Option<u32> = None;
     let mut revisions = vec![];
     for (ri, r) in h.revs.iter().enumerate() {
         let mut slots: BTreeMap<u32, Slot> = BTreeMap::new();
@@ -152,8 +162,12 @@ pub fn compile(h: &History) -> DocSpec {
         if r.move_root && ri > 0 {
             let n = next;
             next += 1;
+            let old_root = root;
             root = n;
             mentions.push((n, Action::Direct(Body::Plain(catalog(2, ri as i64)))));
+            if r.free_old_root {
+                mentions.push((old_root, Action::Free));
+            }
         }
         let mut want_compressed: Vec<(u32, Val)> = vec![];
         for (n, a) in mentions {
@@ -200,8 +214,15 @@ pub fn compile(h: &History) -> DocSpec {
             }
         }
         let style = if r.xref_stream {
-            let num = next;
-            next += 1;
+            let num = match (r.reuse_xref_num, last_xref_stream_num) {
+                (true, Some(n)) => n,
+                _ => {
+                    let n = next;
+                    next += 1;
+                    n
+                }
+            };
+            last_xref_stream_num = Some(num);
             let all_inuse = ri > 0 && slots.values().all(|s| matches!(s, Slot::Direct { .. })) && objstms.is_empty();
             let w0 = if r.w0_zero && all_inuse { 0 } else { 1 + r.w_extra[0] };
             XrefStyle::Stream { num, w: [w0, 4 + r.w_extra[1], 2 + r.w_extra[2]], cuts: r.cuts.clone(), filter: r.xref_filter }
@@ -297,6 +318,8 @@ fn gen_history(rng: &mut Rng, tier: Tier) -> History {
             trailing_ws: rng.coin(),
             two_objstms: rng.chance(1, 3),
             move_root: ri > 0 && rng.chance(1, 6),
+            free_old_root: rng.chance(1, 2),
+            reuse_xref_num: rng.chance(1, 4),
         });
     }
     let junk = if rng.chance(1, 5) { (0..rng.usize(64)).map(|_| *rng.pick(b"xyz \n012")).collect() } else { vec![] };
@@ -561,7 +584,7 @@ impl C02 {
             // simpler styles
             for i in 0..best.revs.len() {
                 let r = &best.revs[i];
-                if !r.cuts.is_empty() || r.w_extra != [0, 0, 0] || r.xref_filter != StmFilter::None || r.objstm_filter != StmFilter::None || r.two_objstms || r.move_root || r.w0_zero {
+                if !r.cuts.is_empty() || r.w_extra != [0, 0, 0] || r.xref_filter != StmFilter::None || r.objstm_filter != StmFilter::None || r.two_objstms || r.move_root || r.w0_zero || r.reuse_xref_num {
                     let mut c = best.clone();
                     let rr = &mut c.revs[i];
                     rr.cuts.clear();
@@ -571,6 +594,7 @@ impl C02 {
                     rr.two_objstms = false;
                     rr.move_root = false;
                     rr.w0_zero = false;
+                    rr.reuse_xref_num = false;
                     if try_c(c, &mut best, &mut detail, &mut budget) {
                         progress = true;
                         break;
